@@ -99,3 +99,13 @@ Theorem array_len_slack_refuted :
     | _ => false
     end = true.
 Proof. exact CorruptProofs.array_len_slack_refuted. Qed.
+
+(* data region, REFUTED "what loads is valid": a NaN sequence_length passes `L <= 0.0` (F19) *)
+Theorem nan_sequence_length_refuted :
+  slice f0 5120 8 = [0; 0; 0; 0; 0; 0; 240; 63] /\
+  double_le_zero [0; 0; 0; 0; 0; 0; 248; 127] = false /\
+  match tsk_load_bytes false false (subst_many f0 [(5126, [248; 127])]) with
+  | Ok (tc', []) => zlist_eqb (tc_L tc') [0; 0; 0; 0; 0; 0; 248; 127]
+  | _ => false
+  end = true.
+Proof. exact CorruptProofs.nan_sequence_length_refuted. Qed.
